@@ -16,10 +16,10 @@ import (
 
 func init() {
 	register(&Prop{ID: "C09", Run: runC09, Enum: enumC09, Quick: 6000, Thorough: 400000, Level: "fault_enumeration",
-		Exhaustive: "adversary (11 kinds) x every stall offset k of the scripted frame x local state (10) x call (Close, CloseNow, CloseRead self-close) x role"})
+		Exhaustive: "adversary (12 kinds) x every stall offset k of the scripted frame x local state (10) x call (Close, CloseNow, CloseRead self-close) x role"})
 }
 
-var c09Adv = []string{"silent", "stall-data2", "stall-data4", "stall-data10", "stall-close", "flood", "huge", "never-reads", "half-close", "echo", "never-reads-sends-pongs"}
+var c09Adv = []string{"silent", "stall-data2", "stall-data4", "stall-data10", "stall-close", "flood", "huge", "never-reads", "half-close", "echo", "never-reads-sends-pongs", "late-ping-stall"}
 var c09State = []string{"idle", "reader-blocked", "half-read-in-frame", "half-read-frame-end", "closeread", "writer-blocked", "ping-waiting", "closeread+ping-waiting", "after-writer-misuse", "closed-then-closeread"}
 var c09Call = []string{"Close", "CloseNow", "none"}
 var c09EchoDelays = []time.Duration{0, 4900 * time.Millisecond, 5100 * time.Millisecond}
@@ -176,6 +176,7 @@ func runC09(r *Run) {
 	var t0, t1 time.Duration = never, never
 	var crDone, crStart time.Duration = never, never
 	var byStart, byEnd time.Duration = never, never
+	closeSeenAt := never // when the peer had the library's whole Close frame
 	_ = crStart
 
 	// ---- setup traffic from the peer (before the adversary's bytes)
@@ -382,6 +383,16 @@ func runC09(r *Run) {
 				if f == nil {
 					return
 				}
+				if f.Opcode == wsref.OpClose && closeSeenAt == never {
+					closeSeenAt = r.S.Now()
+				}
+				if f.Opcode == wsref.OpClose && adv == 11 {
+					// 4.5 s into the wait for the echo: the beginning of a ping, then silence
+					r.S.Sleep(4500 * time.Millisecond)
+					b := peer.Encode(wsref.Frame{Fin: true, Opcode: wsref.OpPing, Payload: []byte("a ping that never ends")})
+					peer.SendBytes(b[:len(b)-5])
+					continue
+				}
 				if f.Opcode == wsref.OpClose && (adv == 9 || call == 2 && adv == 0 && k == 0) {
 					d := c09EchoDelays[k%3]
 					r.S.Sleep(d)
@@ -429,6 +440,9 @@ func runC09(r *Run) {
 		case t1 == never:
 			r.Violate("call-not-bounded", sig, "%s started at %v had not returned after %v (bound %v): parked=%v", c09Call[call], t0, r.S.Now()-t0, bound, r.S.ParkedIDs())
 			return
+		case call == 0 && closeSeenAt != never && closeSeenAt >= t0 && st != 4 && st != 7 && t1 > closeSeenAt+6*time.Second:
+			// the wait for the peer's Close frame is bounded by 5 s on its own
+			r.Violate("call-not-bounded", sig+",wait-phase", "Close returned %v after the peer had received its Close frame (the wait for the peer's is documented as 5 s)", t1-closeSeenAt)
 		case t1-t0 > bound:
 			cls := ",took<=6s"
 			if t1-t0 > 6*time.Second {
